@@ -274,13 +274,24 @@ def build(S):
     S.guarded('guess_bond_order', run_guess)
 
     # contract models used by callers ------------------------------------------------------------
+    # A caller's proof runs twice: without user rules and with an ARBITRARY rule list R (an opaque value).  The bond order guessed under R is the
+    # uninterpreted function guess_with_rules(R, a1, a2): what a caller has to get right is WHICH pair and WHICH rule list it asks about.
+    from pyvc.values import Opaque
+    from pyvc.models_py import ObjS
+
+    def guess_under(I, sp, rules):
+        if rules is None:
+            return lambda a, b: sp.guess(a, b)
+        if isinstance(rules, Opaque):
+            g = I.reg.ufunc('guess_with_rules', ObjS, StrS, StrS, R)
+            return lambda a, b: g(rules.term, a, b)
+        raise OutOfSubset("bond-order rules of an unmodelled shape: %r" % (rules,))
+
     def guess_contract(I, sp):
         def model(ctx, args, kwargs):
             a1, a2 = to_z3(args[0]), to_z3(args[1])
             rules = kwargs.get('rules', args[2] if len(args) > 2 else None)
-            if rules is not None:
-                raise OutOfSubset("contract of guess_bond_order used with rules")
-            return Sym(sp.guess(a1, a2))
+            return Sym(guess_under(I, sp, rules)(a1, a2))
         return model
 
     def bond_contract(I, sp):
@@ -288,14 +299,13 @@ def build(S):
             a1, a2 = to_z3(args[0]), to_z3(args[1])
             bo = kwargs.get('bond_order', args[2] if len(args) > 2 else None)
             rules = kwargs.get('bond_order_rules', args[3] if len(args) > 3 else None)
-            if rules is not None:
-                raise OutOfSubset("contract of bond_params used with rules")
+            guess = guess_under(I, sp, rules)
             iskey = I.reg.ufunc('is_uff_key', StrS, z3.BoolSort())
             I.oblige("%s/pre/bond_params-keys" % ctx.speckey, z3.And(iskey(a1), iskey(a2)), 'pre')
             if bo is None:
-                boz = sp.guess(a1, a2)
+                boz = guess(a1, a2)
             elif isinstance(bo, SymOpt):
-                boz = z3.If(bo.is_none, sp.guess(a1, a2), to_z3(bo.val, sort=R))
+                boz = z3.If(bo.is_none, guess(a1, a2), to_z3(bo.val, sort=R))
             else:
                 boz = to_z3(bo, sort=R)
             k, r = sp.bond(a1, a2, boz)
@@ -305,30 +315,39 @@ def build(S):
     def bo_opt(name):
         return SymOpt(z3.Bool(name + '_none'), Sym(z3.Real(name)))
 
-    def bo_eff(sp, opt, a, b):
-        return z3.If(opt.is_none, sp.guess(a, b), opt.val.e)
+    def bo_eff(sp, opt, a, b, guess=None):
+        return z3.If(opt.is_none, (guess or sp.guess)(a, b), opt.val.e)
+
+    RULE_SCENARIOS = (('', None), ('[user rules]', 'R'))
+
+    def rules_value(tag):
+        return None if tag is None else Opaque(z3.Const('user_rules', ObjS), 'bond_order_rules')
 
     # ---------------------------------------------------------------- bond_params == spec, symmetric
     def run_bond():
+      for rtag, rk in RULE_SCENARIOS:
         I, sp = new_interp()
         I.models[REL + ':guess_bond_order'] = guess_contract(I, sp)
         iskey = I.reg.ufunc('is_uff_key', StrS, z3.BoolSort())
         a1, a2 = A('a1'), A('a2')
         bo = bo_opt('bo')
         clo = I.closure_for(REL, 'bond_params')
+        rv = rules_value(rk)
+        guess = guess_under(I, sp, rv)
 
         def thunk():
             I.assume(iskey(a1)); I.assume(iskey(a2))
-            return I.call_closure(clo, [Sym(a1), Sym(a2)], {'bond_order': bo})
+            return I.call_closure(clo, [Sym(a1), Sym(a2)], dict({'bond_order': bo}, **({'bond_order_rules': rv} if rv is not None else {})))
         paths = I.explore(thunk)
         for i, p in enumerate(paths):
             if p.outcome != 'return':
                 raise OutOfSubset("bond_params raises")
-            k, r = sp.bond(a1, a2, bo_eff(sp, bo, a1, a2))
-            S.add(I, "bond_params/post/equals-spec#%d" % i, p.pc + math_axioms(sp),
+            k, r = sp.bond(a1, a2, bo_eff(sp, bo, a1, a2, guess))
+            S.add(I, "bond_params%s/post/equals-spec#%d" % (rtag, i), p.pc + math_axioms(sp),
                   z3.And(to_z3(p.value[0]) == k, to_z3(p.value[1]) == r), clause='bond length and force constant')
-            S.add_canary(I, "bond_params/canary#%d" % i, p.pc)
+            S.add_canary(I, "bond_params%s/canary#%d" % (rtag, i), p.pc)
         S.add_interp_obligations(I, only=not_div)
+      if True:
         b = z3.Real('b')
         k1, r1 = sp.bond(a1, a2, b)
         k2, r2 = sp.bond(a2, a1, b)
@@ -338,25 +357,30 @@ def build(S):
 
     # ---------------------------------------------------------------- angle_params == spec, symmetric
     def run_angle():
+      for rtag, rk in RULE_SCENARIOS:
         I, sp = new_interp()
         I.models[REL + ':bond_params'] = bond_contract(I, sp)
+        I.models[REL + ':guess_bond_order'] = guess_contract(I, sp)
         iskey = I.reg.ufunc('is_uff_key', StrS, z3.BoolSort())
         a1, a2, a3 = A('a1'), A('a2'), A('a3')
         b1, b2 = bo_opt('bo1'), bo_opt('bo2')
         clo = I.closure_for(REL, 'angle_params')
+        rv = rules_value(rk)
+        guess = guess_under(I, sp, rv)
 
         def thunk():
             for a in (a1, a2, a3):
                 I.assume(iskey(a))
-            return I.call_closure(clo, [Sym(a1), Sym(a2), Sym(a3)], {'bond_orders': [b1, b2]})
+            return I.call_closure(clo, [Sym(a1), Sym(a2), Sym(a3)], dict({'bond_orders': [b1, b2]}, **({'bond_order_rules': rv} if rv is not None else {})))
         paths = I.explore(thunk)
-        cases = first_match(sp.angle(a1, a2, a3, bo_eff(sp, b1, a1, a2), bo_eff(sp, b2, a2, a3)))
+        cases = first_match(sp.angle(a1, a2, a3, bo_eff(sp, b1, a1, a2, guess), bo_eff(sp, b2, a2, a3, guess)))
         for i, p in enumerate(paths):
             res = (p.outcome, p.value)
             goal = z3.And(*[z3.Implies(c, outcome_eq(I, res, o)) for c, o in cases])
-            S.add(I, "angle_params/post/equals-spec#%d" % i, p.pc + math_axioms(sp), goal, clause='angle force constant and style')
-            S.add_canary(I, "angle_params/canary#%d" % i, p.pc)
+            S.add(I, "angle_params%s/post/equals-spec#%d" % (rtag, i), p.pc + math_axioms(sp), goal, clause='angle force constant and style')
+            S.add_canary(I, "angle_params%s/canary#%d" % (rtag, i), p.pc)
         S.add_interp_obligations(I, only=not_div)
+      if True:
         # lemma: reversal symmetry of the spec, using the bond lemma (r symmetric)
         x1, x2 = z3.Real('x1'), z3.Real('x2')
         fw = first_match(sp.angle(a1, a2, a3, x1, x2))
@@ -372,6 +396,7 @@ def build(S):
 
     # ---------------------------------------------------------------- dihedral_params == spec, symmetric
     def run_dihedral():
+      for rtag, rk in RULE_SCENARIOS:
         I, sp = new_interp()
         I.models[REL + ':guess_bond_order'] = guess_contract(I, sp)
         iskey = I.reg.ufunc('is_uff_key', StrS, z3.BoolSort())
@@ -380,20 +405,23 @@ def build(S):
         M = z3.Int('M')
         bo = bo_opt('bo')
         clo = I.closure_for(REL, 'dihedral_params')
+        rv = rules_value(rk)
+        guess = guess_under(I, sp, rv)
 
         def thunk():
             for x in a:
                 I.assume(iskey(x))
             I.assume(M >= 1)
-            return I.call_closure(clo, [Sym(x) for x in a], {'num_dihedrals_about_bond': Sym(M), 'bond_order': bo})
+            return I.call_closure(clo, [Sym(x) for x in a], dict({'num_dihedrals_about_bond': Sym(M), 'bond_order': bo}, **({'bond_order_rules': rv} if rv is not None else {})))
         paths = I.explore(thunk)
-        cases = first_match(sp.torsion(a[0], a[1], a[2], a[3], M, bo_eff(sp, bo, a[1], a[2]), mg))
+        cases = first_match(sp.torsion(a[0], a[1], a[2], a[3], M, bo_eff(sp, bo, a[1], a[2], guess), mg))
         for i, p in enumerate(paths):
             res = (p.outcome, p.value)
             goal = z3.And(*[z3.Implies(c, outcome_eq(I, res, o)) for c, o in cases])
-            S.add(I, "dihedral_params/post/equals-spec#%d" % i, p.pc + math_axioms(sp), goal, clause='torsion case analysis')
-            S.add_canary(I, "dihedral_params/canary#%d" % i, p.pc)
+            S.add(I, "dihedral_params%s/post/equals-spec#%d" % (rtag, i), p.pc + math_axioms(sp), goal, clause='torsion case analysis')
+            S.add_canary(I, "dihedral_params%s/canary#%d" % (rtag, i), p.pc)
         S.add_interp_obligations(I, only=not_div)
+      if True:
         b = z3.Real('b')
         fw = first_match(sp.torsion(a[0], a[1], a[2], a[3], M, b, mg))
         bw = first_match(sp.torsion(a[3], a[2], a[1], a[0], M, b, mg))
